@@ -262,7 +262,10 @@ def rand_output(seed: int, big: bool = False, nonfinite: bool = False):
     kind = rnd.choice(["float2d", "float2d", "int2d", "nan3d", "col"])
     if kind == "float2d":           # evaluate(): (steps, repetitions) floats, integral values
         actions = np.array([[float(rnd.randint(0, 31)) for _ in range(c)] for _ in range(max(1, r - 1))])
-        if rnd.random() < 0.3:
+        if rnd.random() < 0.3 and actions.size > 1:
+            # (never the ONLY cell: an action matrix without a single revealed coalition is not what "a run of at least one step"
+            # produces, and the chosen-coalitions plot saver of save() rejects it — a false alarm of the thorough tier, seed 0,
+            # corrected here; DESIGN 7.2)
             actions[rnd.randrange(actions.shape[0]), rnd.randrange(actions.shape[1])] = np.nan
     elif kind == "int2d":
         actions = np.array([[rnd.randint(0, 31) for _ in range(c)] for _ in range(max(1, r - 1))])
